@@ -1,0 +1,63 @@
+//go:build verif
+
+// Contracts for the govc verifier (see /verif/DESIGN.md). Comments only.
+
+package types
+
+//@@ A base type byte is known iff its 5-bit number is one of the 17 defined
+//@@ types and the multi-byte flag (0x80) is set exactly for sizes > 1.
+//@ spec pure SizeSpec(i byte) int := ite(i == 0 || i == 1 || i == 2 || i == 7 || i == 10 || i == 13, 1, ite(i == 3 || i == 4 || i == 11, 2, ite(i == 5 || i == 6 || i == 8 || i == 12, 4, 8)))
+//@ spec pure KnownIdx(t Base) bool := (byte(t)&0x1F) <= 16 && (((byte(t)&0x80) == 0x80) == (SizeSpec(byte(t)&0x1F) > 1))
+
+//@ func (t Base) Known() (r bool)
+//@   props C01 C15
+//@   ensures [spec] r == KnownIdx(t)
+//@   ensures [no-reserved-bits-needed] r ==> (byte(t)&0x1F) <= 16
+//@   assigns nothing
+
+//@ func (t Base) Size() (r int)
+//@   props C01 C15
+//@   requires (byte(t)&0x1F) <= 16
+//@   ensures [spec] r == SizeSpec(byte(t)&0x1F)
+//@   ensures [range] r == 1 || r == 2 || r == 4 || r == 8
+//@   assigns nothing
+
+//@ func (t Base) Signed() (r bool)
+//@   props C01 C15
+//@   requires (byte(t)&0x1F) <= 16
+//@   ensures [spec] r == ((byte(t)&0x1F) == 1 || (byte(t)&0x1F) == 3 || (byte(t)&0x1F) == 5 || (byte(t)&0x1F) == 8 || (byte(t)&0x1F) == 9 || (byte(t)&0x1F) == 14)
+//@   assigns nothing
+
+//@ func (t Base) Integer() (r bool)
+//@   props C01 C15
+//@   requires (byte(t)&0x1F) <= 16
+//@   ensures [spec] r == !((byte(t)&0x1F) == 0 || (byte(t)&0x1F) == 7 || (byte(t)&0x1F) == 8 || (byte(t)&0x1F) == 9 || (byte(t)&0x1F) == 13)
+//@   assigns nothing
+
+//@ func (t Base) Float() (r bool)
+//@   props C01 C15
+//@   requires (byte(t)&0x1F) <= 16
+//@   ensures [spec] r == ((byte(t)&0x1F) == 8 || (byte(t)&0x1F) == 9)
+//@   assigns nothing
+
+//@ func decompress(b byte) (r Base)
+//@   props C01 C15
+//@   ensures [index] byte(r)&0x1F == b&0x1F
+//@   ensures [known] (b&0x1F) <= 16 ==> KnownIdx(r)
+//@   assigns nothing
+
+//@ func (f Fit) Kind() (r Kind)
+//@   props C01 C15
+//@   ensures [spec] byte(r) == byte((uint16(f)>>6)&7)
+//@   assigns nothing
+
+//@ func (f Fit) Array() (r bool)
+//@   props C01 C15
+//@   ensures [spec] r == ((uint16(f)&0x20) != 0)
+//@   assigns nothing
+
+//@ func (f Fit) BaseType() (r Base)
+//@   props C01 C15
+//@   ensures [index] byte(r)&0x1F == byte(f)&0x1F
+//@   ensures [known] (byte(f)&0x1F) <= 16 ==> KnownIdx(r)
+//@   assigns nothing
